@@ -650,6 +650,7 @@ theorem htmlSet_ok_cases (md : Nat) (d d' : Items) (k : Key) (v : PyVal) (h : ht
   | str s => simp only [htmlSet, Res.ok.injEq] at h; exact Or.inr ⟨_, rfl, h.symm⟩
   | float t z => simp only [htmlSet, Res.ok.injEq] at h; exact Or.inr ⟨_, rfl, h.symm⟩
   | list c l => simp only [htmlSet, Res.ok.injEq] at h; exact Or.inr ⟨_, rfl, h.symm⟩
+  | tuple l => simp only [htmlSet, Res.ok.injEq] at h; exact Or.inr ⟨_, rfl, h.symm⟩
   | other i e => simp only [htmlSet, Res.ok.injEq] at h; exact Or.inr ⟨_, rfl, h.symm⟩
 
 theorem htmlSet_err_iff (md : Nat) (d : Items) (k : Key) (v : PyVal) :
@@ -665,6 +666,7 @@ theorem htmlSet_err_iff (md : Nat) (d : Items) (k : Key) (v : PyVal) :
   | str s => simp [htmlSet, tooBig]
   | float t z => simp [htmlSet, tooBig]
   | list c l => simp [htmlSet, tooBig]
+  | tuple l => simp [htmlSet, tooBig]
   | other i e => simp [htmlSet, tooBig]
 
 theorem xmlSet_ok (md : Nat) (d d' : Items) (k : Key) (v : PyVal) (h : xmlSet md d k v = .ok d') :
@@ -680,6 +682,7 @@ theorem xmlSet_ok (md : Nat) (d d' : Items) (k : Key) (v : PyVal) (h : xmlSet md
   | str s => simp only [xmlSet, Res.ok.injEq] at h; exact h.symm
   | float t z => simp only [xmlSet, Res.ok.injEq] at h; exact h.symm
   | list c l => simp only [xmlSet, Res.ok.injEq] at h; exact h.symm
+  | tuple l => simp only [xmlSet, Res.ok.injEq] at h; exact h.symm
   | other i e => simp only [xmlSet, Res.ok.injEq] at h; exact h.symm
 
 theorem xmlSet_err_iff (md : Nat) (d : Items) (k : Key) (v : PyVal) :
@@ -695,6 +698,7 @@ theorem xmlSet_err_iff (md : Nat) (d : Items) (k : Key) (v : PyVal) :
   | str s => simp [xmlSet, tooBig]
   | float t z => simp [xmlSet, tooBig]
   | list c l => simp [xmlSet, tooBig]
+  | tuple l => simp [xmlSet, tooBig]
   | other i e => simp [xmlSet, tooBig]
 
 /-- values an HTML container may hold / an XML container may hold -/
@@ -724,6 +728,7 @@ theorem htmlStored_storable (k : Key) (v w : PyVal) (h : htmlStored k v = some w
   | float t z => simp only [htmlStored, Option.some.injEq] at h; subst h; simp [HtmlStorable]
   | str s => simp only [htmlStored, Option.some.injEq] at h; subst h; simp [HtmlStorable]
   | list c l => simp only [htmlStored, Option.some.injEq] at h; subst h; simp [HtmlStorable]
+  | tuple l => simp only [htmlStored, Option.some.injEq] at h; subst h; simp [HtmlStorable]
   | other i e => simp only [htmlStored, Option.some.injEq] at h; subst h; simp [HtmlStorable]
 
 theorem xmlStored_storable (v : PyVal) : XmlStorable (xmlStored v) := by
@@ -1265,5 +1270,77 @@ theorem hasDupKey_false_nodup (ks : List PStr) (h : hasDupKey ks = false) : ks.N
     simp only [hasDupKey, Bool.or_eq_false_iff] at h
     refine List.nodup_cons.mpr ⟨?_, ih h.2⟩
     simpa using h.1
+
+/-! ### values a container stores unchanged -/
+
+/-- assigning `v` through class `cls` is a plain store -/
+def IsFixed (md : Nat) (cls : DictClass) (v : PyVal) : Prop :=
+  ∀ d k, setItem md cls d (.plain k) v = .ok (dictSet d k v)
+
+theorem isFixed_plain (md : Nat) (v : PyVal) : IsFixed md .plain v := fun _ _ => rfl
+
+theorem isFixed_strOrList (md : Nat) (cls : DictClass) (v : PyVal) (h : StrOrList v) : IsFixed md cls v :=
+  fun d k => setItem_strOrList md cls d k v h
+
+theorem isFixed_html (md : Nat) (v : PyVal) (h : HtmlStorable v) (hn : v ≠ .none) : IsFixed md .html v := by
+  intro d k
+  cases v <;> simp_all [HtmlStorable, setItem, htmlSet, Key.str]
+
+theorem isFixed_xml (md : Nat) (v : PyVal) (h : XmlStorable v) : IsFixed md .xml v := by
+  intro d k
+  cases v <;> simp_all [XmlStorable, setItem, xmlSet, Key.str]
+
+theorem copyInto_fixed (md : Nat) (cls : DictClass) (d acc : Items) (hnd : (keys (acc ++ d)).Nodup)
+    (hd : ∀ p ∈ d, IsFixed md cls p.2) : copyInto md cls d acc = .ok (acc ++ d) := by
+  induction d generalizing acc with
+  | nil => simp [copyInto]
+  | cons p rest ih =>
+    obtain ⟨k, v⟩ := p
+    have hk : dictHas acc k = false := by
+      cases hh : dictHas acc k with
+      | false => rfl
+      | true =>
+        have hm := (dictHas_iff_mem acc k).mp hh
+        simp only [keys, List.map_append, List.map_cons] at hnd hm
+        have := (List.nodup_append.mp hnd).2.2 k hm k (by simp)
+        exact absurd rfl this
+    have hset : dictSet acc k v = acc ++ [(k, v)] := by
+      clear ih hnd
+      induction acc with
+      | nil => simp [dictSet]
+      | cons q acc ih2 =>
+        simp only [dictHas, List.any_cons, Bool.or_eq_false_iff] at hk
+        simp only [dictSet, hk.1, Bool.false_eq_true, if_false, List.cons_append, List.cons.injEq, true_and]
+        exact ih2 (by simpa [dictHas] using hk.2)
+    simp only [copyInto, hd (k, v) (by simp) acc k, Res.bind, hset]
+    rw [ih (acc ++ [(k, v)]) (by simpa using hnd) (fun p hp => hd p (by simp [hp]))]
+    simp
+
+theorem keys_rawUpdate_nodup (d a : Items) (h : (keys d).Nodup) : (keys (rawUpdate d a)).Nodup := by
+  induction a generalizing d with
+  | nil => simpa [rawUpdate] using h
+  | cons p rest ih => exact ih _ (nodup_dictSet d p.1 p.2 h)
+
+theorem dictGet_rawUpdate (d a : Items) (k : PStr) :
+    dictGet (rawUpdate d a) k = match dictGet a.reverse k with
+      | some v => some v
+      | none => dictGet d k := by
+  induction a generalizing d with
+  | nil => simp [rawUpdate, dictGet]
+  | cons p rest ih =>
+    obtain ⟨k0, v0⟩ := p
+    simp only [rawUpdate]
+    rw [ih]
+    simp only [List.reverse_cons, dictGet]
+    rw [List.lookup_append]
+    cases hr : List.lookup k rest.reverse with
+    | some v => simp
+    | none =>
+      simp only [Option.none_or]
+      by_cases hk : k = k0
+      · subst hk; simp only [List.lookup, beq_self_eq_true]; exact (dictGet_set_self d k v0).symm ▸ rfl
+      · have : (k == k0) = false := by simpa using hk
+        simp only [List.lookup, this]
+        exact dictGet_set_other _ _ _ _ hk
 
 end BS.Attrs
